@@ -1,8 +1,9 @@
 From Coq Require Extraction.
 From Coq Require Import ExtrOcamlBasic.
-From NV Require Import Base.Witness CramRec.Features CramRec.Container CramRec.Mates CramRec.MatesBytes CramRec.SliceHeader CramRec.File CramRec.FileNames CramRec.FeaturesStop.
+From NV Require Import Base.Witness CramRec.Features CramRec.Container CramRec.Mates CramRec.MatesBytes CramRec.SliceHeader CramRec.File CramRec.FileNames CramRec.FeaturesStop CramRec.SliceBlocks.
 Extraction "model.ml" nv_types_witness roundtrip default_sm
   build_container mk_desc_block mkslice
   mates_roundtrip samrec_of mate_view mates_rt mates_links mates_bytes
   shdr_rows srec_of
-  file_rt file_layout rec_cigar rec_bases mdist_rt file_rt_names file_name_blocks roundtrip_stop.
+  file_rt file_layout rec_cigar rec_bases mdist_rt file_rt_names file_name_blocks roundtrip_stop
+  sb_count sb_ids sb_blocks sb_header_bytes sb_read_header.
